@@ -71,9 +71,12 @@ func (v *faissVectorIndexSection) AddrForField(opaque map[int]resetable, fieldID
 // information specific to a vector index - (including metadata and
 // the index pointer itself)
 type vecIndexInfo struct {
-	startOffset       int
-	indexSize         uint64
-	vecIds            []int64
+	startOffset int
+	indexSize   uint64
+	vecIds      []int64
+	// ids under which the vectors go into the merged index: vecIds, except
+	// where another input already uses the id
+	newVecIds         []int64
 	indexOptimizedFor string
 	index             *faiss.IndexImpl
 }
@@ -153,8 +156,15 @@ func (v *faissVectorIndexSection) Merge(opaque map[int]resetable, segments []*Se
 					// as part of vecs to be reconstructed (for larger indexes).
 					// this would account only the valid vector IDs, so the deleted
 					// ones won't be reconstructed in the final index.
-					vecToDocID[vecID] = newDocID
+					// ids are unique within an input only: identical vectors of
+					// two inputs may have drawn the same one (see hashCode)
+					newVecID := vecID
+					for _, taken := vecToDocID[newVecID]; taken; _, taken = vecToDocID[newVecID] {
+						newVecID = vecID&^math.MaxUint32 | int64(rand.Int31())
+					}
+					vecToDocID[newVecID] = newDocID
 					indexes[curIdx].vecIds = append(indexes[curIdx].vecIds, vecID)
+					indexes[curIdx].newVecIds = append(indexes[curIdx].newVecIds, newVecID)
 				}
 			}
 
@@ -347,7 +357,7 @@ func (v *vectorIndexOpaque) mergeAndWriteVectorIndexes(sbs []*SegmentBase,
 			}
 			indexData = append(indexData, recons...)
 			// Adding vector IDs in the same order as the vectors
-			finalVecIDs = append(finalVecIDs, vecIndexes[i].vecIds...)
+			finalVecIDs = append(finalVecIDs, vecIndexes[i].newVecIds...)
 		}
 	}
 
